@@ -577,9 +577,17 @@ void f_replace_string (void) {
             {
               if ((skip = skip_table[(unsigned char) src[probe]]))
                 {
+                  /* the skipped text is copied: it counts against the result's size like every other piece */
+                  if (CONFIG_INT (__MAX_STRING_LENGTH__) - dlen <= skip)
+                    {
+                      pop_n_elems (st_num_arg);
+                      push_svalue (&const0u);
+                      FREE_MSTR (dst1);
+                      return;
+                    }
                   for (climit = dst2 + skip; dst2 < climit; *dst2++ = *src++)
                     ;
-
+                  dlen += skip;
                 }
               else if (memcmp (src, pattern, plen) == 0)
                 {
